@@ -91,6 +91,29 @@ add("C20", "ENUM", T_ENUM + " (oracle computed from the generator's description,
 add("C26", "PROC", "exhaustive enumeration of generated input files / argument vectors, each run through the real binary as a process (and two pty sessions), classified by exit status and crash markers",
     "~1800 (thorough ~4000) process runs of the real binary: RISC-V payload family x types x entries, every truncation and header-byte substitution of two seed files, huge sizes and top-of-address-space layouts, argument vectors, missing/dir/empty files: exit 1 with a 'mltwist: ' message or UI entered; never panic, fatal error, signal or timeout.",
     "stdin=/dev/null runs end in the terminal-size error (regular error exit); 4 GiB address-space limit, 20 s timeout per run.", "DESIGN.md §3 C26")
+
+T_UI = "explicit-state search over input-line histories on the real UI (fresh session + replay + one more line through processCommand, stdin injected, stdout captured)"
+add("C22", "HIST", T_UI + ", sharded over worker processes",
+    "BFS over line histories of depth <=3 (thorough 4) from the initial state and 5 non-initial root states on 3 programs, with per-mode line alphabets (43 disassembler, 35 emulator incl. prompt answers, 27 memory view); screen rendered at two heights after every command; oracle: no panic, command loop never fails, q pops one mode; states deduplicated by the full UI state key.",
+    "Injected input always ends with a tail of valid answers (horizon). Terminal size supplied by the harness.", "DESIGN.md §3 C22")
+add("C23", "HIST", T_UI + "; BFS to closure over move commands",
+    "BFS to closure over 'move N M' for every pair of line numbers (incl. out of range) on multi-block programs with blocks of different sizes; after every command the listing equals a fresh rendering of the same code and a structural model; commands leaving the code unchanged leave the listing unchanged.",
+    "Marks are ignored as the property says.", "DESIGN.md §3 C23")
+add("C24", "ENUM", T_ENUM + " (captured output, lines counted)",
+    "Listing view x every cursor x every granted height; register view x register counts x ip x value widths; memory view x layouts x cursor rows x heights; generic composites of stub children x heights; application screens at every height 7..40: no panic, lines written <= granted, fixed-height views write exactly their height.",
+    "A line = a newline written (+1 for trailing text).", "DESIGN.md §3 C24")
+add("C29", "ENUM", T_ENUM,
+    "format() on every string over {a,b,space} up to length 10 (thorough 12) x remaining widths 1..5(9) x indentation 0..2 with a non-termination watchdog: indentation, width, character preservation and word-splitting oracles.",
+    "Alphabet of 3 characters; widths up to 9.", "DESIGN.md §3 C29")
+add("C30", "ENUM", T_ENUM + " (independent integer-literal parser)",
+    "parseAddr on every string of length <=4 over a 14-character alphabet plus boundary literals around 2^64 in every base; readValue on the same strings x widths {1,2,4,8} typed through the real line reader: exact value / modulo 2^(8w) / rejection; crashes are violations.",
+    "'0'-forms and a leading '+' are not decided by the property text.", "DESIGN.md §3 C30")
+add("C31", "HIST", T_UI + "; BFS to closure over (code order, cursor)",
+    "From 5 roots (initial and after moves) on 3 programs: down/up/goto with 9 boundary arguments, entry, find with 10 patterns in every reachable (order, cursor) state; model cursor computed independently; failing commands show an error and leave the cursor unchanged.",
+    "find patterns are literals / ^$ judged by substring matching.", "DESIGN.md §3 C31")
+add("C32", "ENUM", T_ENUM + " (rendered text parsed and compared with a byte map)",
+    "Every union of <=2 runs over window-boundary endpoints (+ far run), 4 overwrite patterns, Sparse and Overlay memories, 3 address placements: rendered rows parsed and compared with the byte map (rows, cells, ellipsis rules); the address command for every stored address +-1 and window edges.",
+    "Leading/trailing ellipsis and absent bytes inside a shown row are unconstrained.", "DESIGN.md §3 C32")
 PENDING = {}
 def main():
     checks = []
